@@ -36,7 +36,13 @@ RULE = ("random systems: 1-3 species x 1-3 environments; density / chstt scalar 
         "regenerated against the unchanged expectation); species edits are made through the setters AND in place through the objects the getters "
         "return (density dict entry replaced / added, scalar `.value` changed, chstt dict entry) before regenerating; sharing: "
         "systems built from another system's arrays / the caller's ndarrays (constructor and property setters), a setter on one "
-        "must change one entry of that system and nothing else, edits of the caller's arrays must not leak.  Non-trivial: more than one cell or "
+        "must change one entry of that system and nothing else, edits of the caller's arrays must not leak; every 6th system uses rarely "
+        "written environment labels (the UNNAMED environment \"\" - also through a network built WITHOUT an environment list -, labels "
+        "differing only by case, prefixes of each other, equal to a species label) with a species that certainly has its own entry for a "
+        "used one; every 6th system (+15 %) has a network whose species / environment lists were ASSIGNED through the public setters "
+        "after the network was constructed with other lists (re-ordered, one species missing / one more, environments omitted), and "
+        "re-assigned again (re-ordered) AFTER the system was built, defaults regenerated, every entry read by label, object and index "
+        "and written by label / object.  Non-trivial: more than one cell or "
         "species and a non-zero density somewhere; distinct by the whole description")
 ASSUMPTIONS = [
     "floats: |impl - exact| <= 1e-9 relative (products and unit conversions only, no cancellation)",
@@ -125,7 +131,8 @@ def gen_envval(rng, envs, gen_one, comma=True):
     pool = list(envs)
     rng.shuffle(pool)
     keep = pool[:rng.randint(0, len(pool))]
-    if comma and len(keep) >= 2 and rng.random() < 0.35:
+    if comma and len(keep) >= 2 and "" not in keep[:2] and rng.random() < 0.35:
+        # (the unnamed environment "" is never written inside a comma-joined key: "a," is not demanded to mean "a" and "")
         items.append((rng.choice([",", ", ", " ,"]).join(keep[:2]), gen_one()))
         keep = keep[2:]
     for k in keep:
@@ -204,8 +211,45 @@ def inplace_chstt(rng, sp_real, spd, envs):
     return ("dict", list(tab.items())), "species.chstt[%r] = %r" % (key, flag)
 
 
-def gen_desc(rng, malformed_env=False, force_falsy=False, omit_defaults=False):
-    envs = rng.sample(["a", "b", "c", "cyt", "mem"], rng.randint(1, 3))
+ENV_POOL = ["a", "b", "c", "cyt", "mem"]
+# rarely written but legal labels: the UNNAMED environment "" (also the only environment of a network built without an
+# environment list), labels differing only by case, labels that are prefixes of each other, a label equal to a species label
+RARE_ENV_POOL = ["", "cyt", "Cyt", "cy", "a", "A"]
+
+
+def gen_net_history(rng, envs, nsp):
+    """how the network reaches its final content: built with ANOTHER species list / environment list (re-ordered, one
+    missing, one more, environments omitted), then assigned through the public setters `network.species = …`,
+    `network.environments = …`"""
+    order = list(range(nsp))
+    rng.shuffle(order)
+    extra = None
+    if nsp >= 2 and rng.random() < 0.3:
+        order.pop(rng.randrange(len(order)))
+    if rng.random() < 0.35 or order == list(range(nsp)):
+        extra = rng.randint(0, len(order) if order != list(range(nsp)) else 0)
+    r = rng.random()
+    if r < 0.3:
+        envs_first = None                       # the constructor already receives the final list
+    elif r < 0.5:
+        envs_first = "omitted"                  # documented default [""], then assigned
+    else:
+        envs_first = list(envs)
+        rng.shuffle(envs_first)
+        if rng.random() < 0.4:
+            envs_first.insert(rng.randint(0, len(envs_first)), "zz")
+        elif len(envs_first) > 1 and rng.random() < 0.4:
+            envs_first.pop()
+    return {"species_first": order, "extra": extra, "envs_first": envs_first, "as_tuple": rng.random() < 0.3}
+
+
+def gen_desc(rng, malformed_env=False, force_falsy=False, omit_defaults=False, rare_labels=False, reassign=False):
+    if rare_labels:
+        envs = rng.sample(RARE_ENV_POOL, rng.randint(1, 3))
+        if "" not in envs and rng.random() < 0.7:
+            envs[rng.randrange(len(envs))] = ""
+    else:
+        envs = rng.sample(ENV_POOL, rng.randint(1, 3))
     nsys = rand_sys(rng)
     species = []
     for label in rng.sample(["A", "B", "C", "X1", "Y_2"], rng.randint(1, 3)):
@@ -273,6 +317,27 @@ def gen_desc(rng, malformed_env=False, force_falsy=False, omit_defaults=False):
         k = rng.randrange(len(species))
         species[k]["chstt"] = falsy_default_chstt(rng, envs, used_env(desc, rng))
         desc["force_falsy"] = True
+    if rare_labels and not malformed_env:
+        # one species certainly has its own (non-zero) entry for a USED environment, next to a different 'default'
+        k = rng.randrange(len(species))
+        ue = used_env(desc, rng)
+        ssys = species[k]["sys"]
+        items = [(ue, gen_quantity(rng, ssys, DENS, allow_zero=False))]
+        for e in envs:
+            if e != ue and rng.random() < 0.5:
+                items.append((e, gen_quantity(rng, ssys, DENS)))
+        if rng.random() < 0.6:
+            items.insert(rng.randint(0, len(items)), ("default", gen_quantity(rng, ssys, DENS, allow_zero=False)))
+        species[k]["density"] = ("dict", items)
+        if not force_falsy and rng.random() < 0.6:
+            species[k]["chstt"] = ("dict", [(ue, True)] + ([("default", False)] if rng.random() < 0.5 else []))
+        desc["rare_labels"] = True
+        if envs == [""] and rng.random() < 0.6:
+            desc["envs_omitted"] = True           # RDNetwork(species, reactions): documented default environments = [""]
+    if (reassign or rng.random() < 0.15) and not desc.get("envs_omitted"):
+        desc["net_history"] = gen_net_history(rng, envs, len(species))
+    if reassign or rng.random() < 0.15:
+        desc["reassign_after"] = True
     return desc
 
 
@@ -295,7 +360,22 @@ def build_real(desc):
     from strengths import (RDNetwork, Species, RDSystem, RDGridSpace, RDGraphSpace, RDGraphSpaceNode, RDGraphSpaceEdge, UnitsSystem)
     sp = [Species(s["label"], density=envval_real(s["density"], DENS), chstt=envval_real(s["chstt"], None),
                   units_system=UnitsSystem(*s["sys"])) for s in desc["species"]]
-    net = RDNetwork(species=sp, reactions=[], environments=list(desc["envs"]), units_system=UnitsSystem(*desc["net_sys"]))
+    hist = desc.get("net_history")
+    if desc.get("envs_omitted"):
+        net = RDNetwork(species=sp, reactions=[], units_system=UnitsSystem(*desc["net_sys"]))
+    elif hist:
+        first = [sp[i] for i in hist["species_first"]]
+        if hist.get("extra") is not None:
+            first.insert(hist["extra"], Species("Zq", density=1.0, chstt=True))
+        kw = {}
+        if hist["envs_first"] != "omitted":
+            kw["environments"] = list(hist["envs_first"] if hist["envs_first"] is not None else desc["envs"])
+        net = RDNetwork(species=first, reactions=[], units_system=UnitsSystem(*desc["net_sys"]), **kw)
+        net.species = tuple(sp) if hist.get("as_tuple") else list(sp)
+        if hist["envs_first"] is not None:
+            net.environments = tuple(desc["envs"]) if hist.get("as_tuple") else list(desc["envs"])
+    else:
+        net = RDNetwork(species=sp, reactions=[], environments=list(desc["envs"]), units_system=UnitsSystem(*desc["net_sys"]))
     sd = desc["space"]
     us = UnitsSystem(*sd["sys"])
     if sd["kind"] == "grid":
@@ -467,6 +547,16 @@ def run_system(ctx, desc, idx):
         ctx.count("graph_nodes_omitting_volume", sum(1 for nd in sd["nodes"] if "vol" in nd.get("omit", [])))
     ctx.count("species_%d" % nsp)
     ctx.count("envs_%d" % len(desc["envs"]))
+    if "" in desc["envs"]:
+        ctx.count("unnamed_environment_label")
+        if any(sp_["density"][0] == "dict" and any(k == "" for k, _ in sp_["density"][1]) for sp_ in desc["species"]):
+            ctx.count("density_entry_for_unnamed_environment")
+    if len(set(e.lower() for e in desc["envs"])) < len(desc["envs"]):
+        ctx.count("environment_labels_differing_by_case")
+    if desc.get("envs_omitted"):
+        ctx.count("network_built_without_environment_list")
+    if desc.get("net_history"):
+        ctx.count("network_lists_assigned_after_construction")
     for s in desc["species"]:
         ctx.count("density_" + s["density"][0])
         ctx.count("chstt_" + s["chstt"][0])
@@ -697,6 +787,97 @@ def run_system(ctx, desc, idx):
                 ctx.violation("regenerate-chem", "set_default_chemostats after editing species %d does not reflect the edit" % s, ecase,
                               impl=[int(v) for v in system.chemostats], expected=wantc)
         desc = desc2
+
+    # ---------------------------------------------------------------- the network's species / environment lists re-assigned
+    # through the public setters AFTER the system was built, defaults regenerated: the layout follows the CURRENT lists and
+    # every way of naming a species addresses the entry of its current position
+    if desc.get("reassign_after"):
+        perm = list(range(nsp))
+        rng.shuffle(perm)
+        if nsp >= 2 and perm == list(range(nsp)):
+            perm = perm[1:] + perm[:1]
+        eperm = list(range(len(desc["envs"])))
+        if rng.random() < 0.6:
+            rng.shuffle(eperm)
+        new_envs = [desc["envs"][j] for j in eperm]
+        errs = []
+        try:
+            system.network.species = [system.network.species[i] for i in perm]
+            if eperm != sorted(eperm):
+                system.network.environments = list(new_envs)
+            errs.append(None)
+        except Exception as e:  # noqa
+            errs.append(type(e).__name__)
+        calls.append({"model": {"k": "assign_species", "order": perm}, "real": (None, errs[0]), "forms": ("", "")})
+        calls.append({"model": {"k": "assign_envs", "envs": new_envs}, "real": (None, None), "forms": ("", "")})
+        desc3 = dict(desc, species=[desc["species"][i] for i in perm], envs=new_envs)
+        for nm, fn in (("set_default_state", system.set_default_state), ("set_default_chem", system.set_default_chemostats)):
+            try:
+                fn()
+                errs.append(None)
+            except Exception as e:  # noqa
+                errs.append(type(e).__name__)
+            calls.append({"model": {"k": nm}, "real": (None, errs[-1]), "forms": ("", "")})
+        rcase = {"desc": desc, "kind": "reassign", "species_order": perm, "environments": new_envs}
+        ctx.case(("reassign", idx, tuple(perm), tuple(eperm)), nontrivial=nsp > 1 or len(new_envs) > 1)
+        ctx.count("reassign_after_build")
+        if any(errs):
+            ctx.violation("reassign-raises", "assigning network.species / network.environments (a re-ordering) and regenerating raised %r" % errs,
+                          rcase, impl=errs, expected="ok")
+        else:
+            desc = desc3
+            si = state_si(system)
+            wants = [expected_state_si(desc, a, c) for a in range(nsp) for c in range(n)]
+            wantc = [expected_chem(desc, a, c) for a in range(nsp) for c in range(n)]
+            if len(si) != len(wants) or not all(close(a, b, rel=1e-9) for a, b in zip(si, wants)):
+                ctx.violation("reassign-state", "default state regenerated after network.species / environments were re-assigned is not laid out by the current lists",
+                              rcase, impl=[float(v) for v in si], expected=[float(v) for v in wants])
+            if [int(v) for v in system.chemostats] != wantc:
+                ctx.violation("reassign-chem", "default chemostat map regenerated after network.species / environments were re-assigned is not laid out by the current lists",
+                              rcase, impl=[int(v) for v in system.chemostats], expected=wantc)
+            for s in range(nsp):
+                lab = desc["species"][s]["label"]
+                for c in range(n):
+                    flat = s * n + c
+                    for sp_arg in ((lab, {"label": lab}, "label"), (("OBJ", s), {"obj": lab}, "obj"), (s, {"idx": s}, "idx")):
+                        k, e = do("get_state_index", s, c, sp_arg=sp_arg)
+                        if e is not None or k != flat:
+                            ctx.violation("state-index", "after network.species was re-assigned, get_state_index(%s of species %d, cell %d) = %r, species-major layout gives %d"
+                                          % (sp_arg[2], s, c, k if e is None else e, flat), dict(rcase, species=s, cell=c, form=sp_arg[2]),
+                                          impl=k if e is None else e, expected=flat)
+                    x, e = do("get_state", s, c)
+                    us = x[1][0] if e is None else None
+                    ctx.evaluations += 1
+                    if e is not None or not (close(frac(x[0]) * si_factor(us, QTYD), wants[flat], rel=1e-9) if wants[flat] != 0 else x[0] == 0):
+                        ctx.violation("get-state", "after network.species was re-assigned and the defaults regenerated, get_state(species %d, cell %d) = %r, density x volume = %s molecules"
+                                      % (s, c, x if e is None else e, float(wants[flat])), dict(rcase, species=s, cell=c),
+                                      impl=x if e is None else e, expected=rstr(wants[flat]))
+                    f, e = do("get_chem", s, c)
+                    if e is not None or f != wantc[flat]:
+                        ctx.violation("get-chem", "after network.species was re-assigned and the defaults regenerated, get_chemostat(species %d, cell %d) = %r, the species' flag is %d"
+                                      % (s, c, f if e is None else e, wantc[flat]), dict(rcase, species=s, cell=c), impl=f if e is None else e, expected=wantc[flat])
+            # a write by label / object lands on the entry of the CURRENT position
+            s, c = rng.randrange(nsp), rng.randrange(n)
+            lab = desc["species"][s]["label"]
+            flat = s * n + c
+            beforec = [int(v) for v in system.chemostats]
+            sp_arg = rng.choice([(lab, {"label": lab}, "label"), (("OBJ", s), {"obj": lab}, "obj")])
+            _, e = do("set_chem", s, c, value=1 - beforec[flat], sp_arg=sp_arg)
+            wantc2 = list(beforec)
+            wantc2[flat] = 1 - beforec[flat]
+            if e is not None or [int(v) for v in system.chemostats] != wantc2:
+                ctx.violation("set-chem", "after network.species was re-assigned, set_chemostat(%s of species %d, cell %d) did not write exactly entry %d" % (sp_arg[2], s, c, flat),
+                              dict(rcase, species=s, cell=c, form=sp_arg[2]), impl=e or [int(v) for v in system.chemostats], expected=wantc2)
+            before = state_si(system)
+            q = gen_quantity(rng, desc["sys"], QTYD)
+            sp_arg = rng.choice([(lab, {"label": lab}, "label"), (("OBJ", s), {"obj": lab}, "obj")])
+            _, e = do("set_state", s, c, value=q, sp_arg=sp_arg)
+            after = state_si(system)
+            want = list(before)
+            want[flat] = q["si"]
+            if e is not None or not all(close(a, b, rel=1e-9) if b != 0 else a == 0 for a, b in zip(after, want)):
+                ctx.violation("set-state", "after network.species was re-assigned, set_state(%s of species %d, cell %d) did not write exactly entry %d" % (sp_arg[2], s, c, flat),
+                              dict(rcase, species=s, cell=c, form=sp_arg[2]), impl=e or [float(v) for v in after], expected=[float(v) for v in want])
     rec["final"] = (list(system.state.value), units_tuple(system.state.units), [int(c) for c in system.chemostats])
     rec["calls"] = calls
     return calls, rec
@@ -1123,7 +1304,8 @@ def run(ctx, count=None):
             compare(ctx, rec, r)
         del batch[:]
     for i in range(count):
-        desc = gen_desc(ctx.rng, malformed_env=(i % 12 == 11), force_falsy=(i % 5 == 0), omit_defaults=(i % 4 == 1))
+        desc = gen_desc(ctx.rng, malformed_env=(i % 12 == 11), force_falsy=(i % 5 == 0), omit_defaults=(i % 4 == 1),
+                        rare_labels=(i % 6 == 2), reassign=(i % 6 == 4))
         calls, rec = run_system(ctx, desc, i)
         rec["desc0"] = desc
         batch.append(rec)
